@@ -1225,6 +1225,11 @@ class _Streamer(mcasm.Streamer):
         value: Union[mcasm.mc.Expr, bytes],
         type: Assembler.Result.DataType,
     ) -> None:
+        # An empty string literal emits nothing; it must not leave an empty
+        # block with an encoding behind.
+        if isinstance(value, bytes) and not value:
+            return
+
         # gtirb can only apply an encoding to a data block, so we need for
         # this value to be in its own block.
         self._split_block()
